@@ -393,6 +393,11 @@ impl Issuer {
     /// ```
     pub fn encode(&mut self, signer_key: &KeyForEncoding) -> Result<String, Error> {
         reject_reserved_names(&self.claims, true)?;
+        // with key binding the issuer sets cnf itself: a cnf claim of the caller would be replaced
+        // silently, or (when it is disclosable) end up in the SD-JWT next to the holder key
+        if self.key_binding_pubkey.is_some() && self.claims.get("cnf").is_some() {
+            return Err(Error::InvalidDisclosureKey("cnf".to_string()));
+        }
         let mut updated_claims = self.claims.clone();
         let disclosures: Result<Vec<Disclosure>, Error> = self
             .disclosable_claim_paths
